@@ -27,7 +27,8 @@ variants() {
   case "$prop:$tier" in
     C01:quick)     echo "seq race:conc" ;;
     C01:thorough)  echo "seq race:conc race:conc:gmp4 conc:gmp2" ;;
-    C02:*|C03:*|C04:*|C05:*|C06:*|C07:*|C15:*|C19:*) echo "seq" ;;
+    C02:*|C03:*|C04:*|C05:*|C07:*|C15:*|C19:*) echo "seq" ;;
+    C06:*)         echo "seq race:owner" ;;
     C08:quick|C09:quick)       echo "seq race:conc" ;;
     C08:thorough|C09:thorough) echo "seq race:conc race:conc:gmp2 conc:gmp4" ;;
     C11:quick)    echo "race aim" ;;      # aim: only the timer-expiry aiming sweep, uninstrumented so that it reaches ~10^6 cycles
